@@ -95,25 +95,17 @@ func (w *WebsocketConnection) run() {
 // writePump pumps messages from the SPINE and SHIP writeChannels to the websocket connection
 func (w *WebsocketConnection) writeShipPump() {
 	ticker := time.NewTicker(pingPeriod)
-	defer func() {
-		ticker.Stop()
-		close(w.shipWriteChannel)
-	}()
+	// the write channel is never closed: a writer may still be about to send on it,
+	// writers are released via the close channel instead
+	defer ticker.Stop()
 
 	for {
 		select {
 		case <-w.closeChannel:
 			return
 
-		case message, ok := <-w.shipWriteChannel:
+		case message := <-w.shipWriteChannel:
 			if w.isConnClosed() {
-				return
-			}
-
-			if !ok {
-				logging.Log().Debug(w.remoteSki, "ship write channel closed")
-				// The write channel has been closed
-				_ = w.writeMessage(websocket.CloseMessage, []byte{})
 				return
 			}
 
@@ -265,8 +257,13 @@ func (w *WebsocketConnection) WriteMessageToWebsocketConnection(message []byte) 
 		return errors.New(connIsClosedError)
 	}
 
-	w.shipWriteChannel <- message
-	return nil
+	// do not block forever if the connection is closed while the channel is full
+	select {
+	case w.shipWriteChannel <- message:
+		return nil
+	case <-w.closeChannel:
+		return errors.New(connIsClosedError)
+	}
 }
 
 // make sure websocket Write is only called once at a time
